@@ -11,6 +11,8 @@ from . import C10
 
 REQUIRED_TABLE = {"table_name": None, "schema": None, "primary_key": None, "columns": "list", "alter": "dict", "checks": "list",
                   "index": "list", "partitioned_by": "list", "tablespace": None}
+OWNER = {"hql": "hql", "mysql": "mysql", "oracle": "oracle", "redshift": "redshift", "snowflake": "snowflake", "mssql": "mssql",
+         "bigquery": "bigquery", "postgres": "postgres", "spark": "spark_sql", "db2": "ibm_db2"}
 REQUIRED_COLUMN = {"name", "type", "size", "references", "unique", "nullable", "default", "check"}
 OPTION_KEYS = {"references", "unique", "primary_key", "nullable", "default", "check"}
 # reviewed deletions of a required-looking key on something that is not a column entry
@@ -187,6 +189,14 @@ def run(ck, ctx):
         last = run_f.node.body[-1]
         ck.ob("T-JSONDUMP", "run() returns self.tables right after", isinstance(last, ast.Return) and ast.unparse(last.value) == "self.tables"
               and run_f.node.body[-2] is S.stmt_of(run_f, st) or run_f.node.body[-2] is _top(run_f, st), "", run_f.loc(last))
+    # ---- the final output of the fixed points' tables has the documented shape (output layer evaluated abstractly)
+    from ..rules.fragments import run_fragments
+    from ..specs.clauses import GROUPS
+    jobs = [dict(module="table", label="constraints", only_rules={"O-shape", "O-final"},
+                 build_kw=dict(tier=ck.tier, constraints=True, set_null=False, final=("shape",), final_modes=["sql", "hql", "bigquery", "mssql", "oracle", "redshift"]))]
+    jobs += [dict(module="clauses", only_rules={"O-shape", "O-final"},
+                  build_kw=dict(group=g, tier=ck.tier, final=("shape",), final_modes=["sql", OWNER[g]])) for g in GROUPS]
+    run_fragments(ck, ctx, jobs)
     ck.assumptions += ["json.dumps encodes dict / list / tuple / str / int / float / bool / None (CPython)",
                        "declined: `primary_key lists names of that table's columns` (value-level)",
                        "reviewed: prepare_alter_columns can append a reference-only column record for an ALTER naming a column the table "
